@@ -282,4 +282,18 @@ func (c *cluster) keepAliveLease()
     modifies c.lease
     ensures a-new-lease-is-all-that-recovery-touches: gSessionsClosed == old(gSessionsClosed) && c.session == old(c.session)
   end
+
+// ---- C18: the cluster mutex as the admin API sees it (through the Cluster / Mutex interfaces) ----
+ghost var mHeld mmap[int]bool     // mutex object -> held through it
+iface (c Cluster) Mutex(name string) (m Mutex, err error)
+  flag allocates
+  ensures err == nil ==> m != nil && ifaceVal(m) != 0
+  ensures err != nil ==> m == nil
+iface (m Mutex) Lock() (err error)
+  modifies mHeld
+  ensures err == nil ==> mHeld == old(store(mHeld, ifaceVal(m), true))
+  ensures err != nil ==> mHeld == old(mHeld)
+iface (m Mutex) Unlock() (err error)
+  modifies mHeld
+  ensures mHeld == old(store(mHeld, ifaceVal(m), false))
 @*/
